@@ -309,9 +309,20 @@ where $($args: Getable<'vm, 'vm> + 'vm,)*
             lock = stack.into_lock();
 
             drop(context);
-            let r = (*self)($($args),*);
+            // This runs inside an `extern "C"` function so a panic in the called function
+            // must not be allowed to unwind any further (that would abort the process)
+            let r = ::std::panic::catch_unwind(::std::panic::AssertUnwindSafe(|| {
+                (*self)($($args),*)
+            }));
             context = vm.current_context();
-            r
+            match r {
+                Ok(r) => r,
+                Err(payload) => {
+                    let msg = panic_message(&*payload);
+                    return crate::api::RuntimeResult::<(), String>::Panic(msg)
+                        .async_status_push(&mut context, lock, frame_index);
+                }
+            }
         };
 
         r.async_status_push(&mut context, lock, frame_index)
@@ -319,6 +330,17 @@ where $($args: Getable<'vm, 'vm> + 'vm,)*
 }
 
     }
+}
+
+fn panic_message(payload: &(dyn Any + Send)) -> String {
+    let msg = match payload.downcast_ref::<&'static str>() {
+        Some(msg) => *msg,
+        None => match payload.downcast_ref::<String>() {
+            Some(msg) => &msg[..],
+            None => "Box<dyn Any>",
+        },
+    };
+    format!("Panic in a primitive function: {}", msg)
 }
 
 fn block_on_sync<F, T>(f: F) -> F::Output
